@@ -124,9 +124,10 @@ def gen_spec(seed, tier):
         lev = levels[rl]
         allit = sorted({i for rs in restarts for i in rs['its'].get(rl, [])})
         if len(allit) > 1 and len(lev['boxes']) > 1:
-            cuts = [random_cuts(rng, lev['shape'][a], int(rng.integers(0, 3))) for a in range(3)]
+            one = bool(rng.random() < 0.35)       # regridded to a single component
+            cuts = [random_cuts(rng, lev['shape'][a], 0 if one else int(rng.integers(0, 3))) for a in range(3)]
             late = etgen.product_boxes(lev['shape'], cuts)
-            if len(late) > 1:
+            if len(late) >= 1:        # (a single component carries no ' c=' in its keys)
                 lev['boxes_late'] = late
                 lev['late_from'] = allit[int(rng.integers(1, len(allit)))]
     return dict(simname=f'sim{seed}', vars=vars_, levels=levels, restarts=restarts,
@@ -178,6 +179,10 @@ def check_read(res, A, param, spec, rng):
         want, tensor = aurel_request(rng, spec)
         tags = tagset(spec, rl) + ['tensor' if tensor else 'components']
         product = etgen.is_product(spec['levels'][rl]['boxes'])
+        if spec['layout'] == 'proc' and len({len(l['boxes']) for l in spec['levels'].values()}) > 1:
+            # a level with fewer components than there are process files: the
+            # reader may refuse such a directory (it must still not misplace data)
+            product = False
         res['observations'] += 1
         it_arg, vars_arg, par_snap = list(req), list(want), dict(param)
         try:
@@ -264,6 +269,10 @@ def check_checkpoints(res, A, param, spec, rng):
     for rl in spec['levels']:
         want, tensor = aurel_request(rng, spec)
         product = etgen.is_product(spec['levels'][rl]['boxes'])
+        if spec['layout'] == 'proc' and len({len(l['boxes']) for l in spec['levels'].values()}) > 1:
+            # a level with fewer components than there are process files: the
+            # reader may refuse such a directory (it must still not misplace data)
+            product = False
         tags = tagset(spec, rl) + ['checkpoint', 'chk-proc' if any(
             rs.get('chk_proc') for rs in spec['restarts']) else 'chk-onefile']
         res['observations'] += 1
@@ -458,7 +467,8 @@ def run_case(spec0):
                 else:
                     res['nontrivial'].append(['explicit-restart', len(spec['restarts'])])
             except Exception as e:
-                if etgen.is_product(spec['levels'][rl]['boxes']):
+                if etgen.is_product(spec['levels'][rl]['boxes']) and not (
+                        spec['layout'] == 'proc' and len({len(l['boxes']) for l in spec['levels'].values()}) > 1):
                     common.add_violation(res, f"read_data(restart=r) raises {type(e).__name__}",
                                          {"err": repr(e)[:200]})
         check_truncated(res, A, param, spec, rng)
